@@ -1050,6 +1050,76 @@ func c05Keys(c *core.Ctx, impls []*types.Named) {
 				}
 			}
 		}
+		// ... or a key of another type that is still made from the hash alone (the hash
+		// printed as a string, say): the value used as key on realTable derives from a
+		// call of Name.Hash / PrefixHash
+		var fromHash func(v ssa.Value, d int, seen map[ssa.Value]bool) bool
+		fromHash = func(v ssa.Value, d int, seen map[ssa.Value]bool) bool {
+			v = core.StripConv(v)
+			if v == nil || d > 6 || seen[v] {
+				return false
+			}
+			seen[v] = true
+			switch x := v.(type) {
+			case *ssa.Call:
+				if id, ok := core.Callee(&x.Call); ok && (id.Name == "Hash" || id.Name == "PrefixHash") && id.Pkg == "std/encoding" {
+					return true
+				}
+				if cal := x.Call.StaticCallee(); cal != nil && cal.Blocks != nil && cal.Pkg != nil && strings.HasPrefix(cal.Pkg.Pkg.Path(), core.ModPath) {
+					found := false
+					core.Instrs(cal, func(in ssa.Instruction) {
+						if r, isR := in.(*ssa.Return); isR {
+							for _, rv := range r.Results {
+								if fromHash(rv, d+1, seen) {
+									found = true
+								}
+							}
+						}
+					})
+					return found
+				}
+				for _, a := range x.Call.Args {
+					if fromHash(a, d+1, seen) {
+						return true
+					}
+				}
+			case *ssa.Phi:
+				for _, e := range x.Edges {
+					if fromHash(e, d+1, seen) {
+						return true
+					}
+				}
+			case *ssa.IndexAddr:
+				return fromHash(x.X, d+1, seen)
+			case *ssa.Index:
+				return fromHash(x.X, d+1, seen)
+			case *ssa.UnOp:
+				return fromHash(x.X, d+1, seen)
+			case *ssa.Extract:
+				return fromHash(x.Tuple, d+1, seen)
+			}
+			return false
+		}
+		for _, fn := range p.FuncsIn(core.ModPath + "/fw/table") {
+			if core.FuncID(core.RootOf(fn)).Recv != "FibStrategyHashTable" {
+				continue
+			}
+			core.Instrs(fn, func(in ssa.Instruction) {
+				var key, m ssa.Value
+				switch x := in.(type) {
+				case *ssa.Lookup:
+					key, m = x.Index, x.X
+				case *ssa.MapUpdate:
+					key, m = x.Key, x.Map
+				}
+				if key == nil {
+					return
+				}
+				if _, isRT := core.FieldOf(m, "realTable"); isRT && fromHash(key, 0, map[ssa.Value]bool{}) {
+					hashKeyed = true
+				}
+			})
+		}
 		compares := false
 		for _, fn := range p.FuncsIn(core.ModPath + "/fw/table") {
 			if core.FuncID(core.RootOf(fn)).Recv != "FibStrategyHashTable" {
